@@ -94,7 +94,14 @@ pub fn run(name: &str, a: &Args) -> Option<String> {
             pd3(e.duration)
         }
         "from_unix_d" => pep(Epoch::from_unix_duration(a.dur(0))),
-        "doy" => format!("{}", crate::epoch::epoch(a, 0).day_of_year().to_bits()),
+        "doy" => {
+            let e = crate::epoch::epoch(a, 0);
+            // year_days_of_year is the pair (year(), day_of_year()); the day of year is the time elapsed in the year, in days, plus one
+            let (y, d) = e.year_days_of_year();
+            assert!(y == e.year() && d.to_bits() == e.day_of_year().to_bits(), "year_days_of_year differs from (year, day_of_year)");
+            assert!(e.day_of_year().to_bits() == (e.duration_in_year().to_unit(hifitime::Unit::Day) + 1.0).to_bits(), "day_of_year differs from duration_in_year in days + 1");
+            format!("{}", e.day_of_year().to_bits())
+        }
         "from_doy" => {
             let e = hifitime::Epoch::from_day_of_year(a.z(0) as i32, f64::from_bits(a.z(1) as u64), crate::epoch::ts(a.z(2)));
             format!("1 {} {}", e.duration.total_nanoseconds(), u8::from(e.time_scale))
